@@ -102,6 +102,17 @@ pub fn assume_init_read<T, N: ArrayLength>(array: Slots<T, N>) -> (r: GenericArr
     ensures r.slots == array,
 { unimplemented!() }
 
+// Box::<GenericArray<MaybeUninit<T>, N>>::new_uninit().assume_init(): std allocates (or ends in handle_alloc_error - assumed
+// contract of Box::new_uninit) and the Box owns the block; for the slot ledger a boxed block is a block (rule R-box)
+#[verifier::external_body]
+pub fn box_new_uninit<T, N: ArrayLength>() -> (r: Slots<T, N>) ensures r.ok(), r.all_dead() { unimplemented!() }
+// Box::from_raw(Box::into_raw(array).cast()): reinterprets Box<[MaybeUninit<T>; N]> as Box<[T; N]> - UB unless all initialised
+#[verifier::external_body]
+pub fn box_assume_init<T, N: ArrayLength>(array: Slots<T, N>) -> (r: GenericArray<T, N>)
+    requires array.ok(), array.all_live(),
+    ensures r.slots == array,
+{ unimplemented!() }
+
 pub struct LengthError;
 
 // caller-supplied iterator (rule R-foreign): opaque; its ghost state is everything it has returned so far, so sources
@@ -115,6 +126,24 @@ pub trait ForeignIter<T> {
 }
 pub open spec fn polled_after_none<T>(s: Seq<Option<T>>) -> bool {
     exists|i: int| 0 <= i < s.len() - 1 && (#[trigger] s[i]).is_none()
+}
+
+// ===================== engine-V prelude: caller-supplied code (TRUSTED) =====================
+// Rule R-foreign: a call of a closure parameter / Clone::clone / Iterator::next becomes a method of an opaque object:
+// arbitrary result, the call is appended to a ghost log.  Every such call is an unwind point.
+pub trait Foreign2<A, B, R> {
+    spec fn log(&self) -> Seq<(A, B, R)>;
+    fn call(&mut self, a: A, b: B) -> (r: R)
+        ensures final(self).log() == old(self).log().push((a, b, r));
+}
+pub trait ForeignClone: Sized {
+    spec fn cloned(&self, r: Self) -> bool;
+    fn clone_(&self) -> (r: Self) ensures self.cloned(r);
+}
+pub trait Foreign1<A, R> {
+    spec fn log(&self) -> Seq<(A, R)>;
+    fn call(&mut self, a: A) -> (r: R)
+        ensures final(self).log() == old(self).log().push((a, r));
 }
 
 
@@ -282,6 +311,86 @@ impl<T, N: ArrayLength> IntrusiveArrayBuilder<T, N> {
                 };
             }
             Ok({ let array = builder.finish(); ({ proof { assert(array.all_live()); assert forall|k: int| 0 <= k < N::n() implies (#[trigger] iter.returned()[k]) == Some(array.view()[k].unwrap()) by { assert(iter.returned()[k] == r1[k]); assert(r1[0 + k] == Some(b1[k])); } } array_assume_init(array) }) })
+        }
+    }
+
+    // extracted from src/lib.rs:283  `fn generate<F>(mut f: F) -> GenericArray<T, N> where F: FnMut(usize) -> T,`
+    pub fn generate<T, N: ArrayLength, F: Foreign1<usize, T>>(f: &mut F) -> (ret: GenericArray<T, N>)
+        requires
+            old(f).log().len() == 0,
+        ensures
+            final(f).log().len() == N::n(), /*OB:generate.post.n-calls:C08*/
+            forall|k: int| 0 <= k < N::n() ==> (#[trigger] final(f).log()[k]).0 == k && ret.elems()[k] == final(f).log()[k].1, /*OB:generate.post.ascending-and-stored-at-index:C08*/
+    {
+        {
+            let array = Slots::uninit();
+            let mut builder = IntrusiveArrayBuilder::new(array);
+            {
+                let mut __i: usize = 0;
+                while __i < N::usize_() invariant builder.wf(), builder.position == __i, __i <= N::n(), f.log().len() == __i, forall|j: int| 0 <= j < __i ==> (#[trigger] f.log()[j]).0 == j && f.log()[j].1 == builder.built()[j], decreases N::n() - __i, {
+                    let i = __i;
+                    let ghost lb = f.log();
+                    let ghost bb = builder.built();
+                    proof {
+                        assert(builder.wf()) /*OB:generate.unwind@f:C04*/;
+                    }
+                    let __v = f.call(i);
+                    builder.array.put(i, __v);
+                    builder.position += 1;
+                    __i += 1;
+                    proof {
+                        assert forall|j: int| 0 <= j < __i implies (#[trigger] f.log()[j]).0 == j && f.log()[j].1 == builder.built()[j] by {
+                            if j < __i - 1 {
+                                assert(f.log()[j] == lb[j]);
+                                assert(builder.built()[j] == bb[j]);
+                            }
+                        }
+                    }
+                }
+            }
+            let ghost b1 = builder.built();
+            let array = builder.finish();
+            ({ proof { assert(array.all_live()); assert forall|k: int| 0 <= k < N::n() implies array.view()[k].unwrap() == (#[trigger] f.log()[k]).1 by { assert(f.log()[k].1 == b1[k]); } } array_assume_init(array) })
+        }
+    }
+
+    // extracted from src/impl_alloc.rs:141  `fn generate<F>(mut f: F) -> Self::Sequence where F: FnMut(usize) -> T,`
+    pub fn generate_boxed<T, N: ArrayLength, F: Foreign1<usize, T>>(f: &mut F) -> (ret: GenericArray<T, N>)
+        requires
+            old(f).log().len() == 0,
+        ensures
+            final(f).log().len() == N::n(), /*OB:generate_boxed.post.n-calls:C08*/
+            forall|k: int| 0 <= k < N::n() ==> (#[trigger] final(f).log()[k]).0 == k && ret.elems()[k] == final(f).log()[k].1, /*OB:generate_boxed.post.ascending-and-stored-at-index:C08*/
+    {
+        {
+            let array = box_new_uninit();
+            let mut builder = IntrusiveArrayBuilder::new(array);
+            {
+                let mut __i: usize = 0;
+                while __i < N::usize_() invariant builder.wf(), builder.position == __i, __i <= N::n(), f.log().len() == __i, forall|j: int| 0 <= j < __i ==> (#[trigger] f.log()[j]).0 == j && f.log()[j].1 == builder.built()[j], decreases N::n() - __i, {
+                    let i = __i;
+                    let ghost lb = f.log();
+                    let ghost bb = builder.built();
+                    proof {
+                        assert(builder.wf()) /*OB:generate_boxed.unwind@f:C04*/;
+                    }
+                    let __v = f.call(i);
+                    builder.array.put(i, __v);
+                    builder.position += 1;
+                    __i += 1;
+                    proof {
+                        assert forall|j: int| 0 <= j < __i implies (#[trigger] f.log()[j]).0 == j && f.log()[j].1 == builder.built()[j] by {
+                            if j < __i - 1 {
+                                assert(f.log()[j] == lb[j]);
+                                assert(builder.built()[j] == bb[j]);
+                            }
+                        }
+                    }
+                }
+            }
+            let ghost b1 = builder.built();
+            let array = builder.finish();
+            ({ proof { assert(array.all_live()); assert forall|k: int| 0 <= k < N::n() implies array.view()[k].unwrap() == (#[trigger] f.log()[k]).1 by { assert(f.log()[k].1 == b1[k]); } } box_assume_init(array) })
         }
     }
 
